@@ -38,3 +38,13 @@ K("c13_prestate_wf", "blk", ["C13"], tier="thorough", timeout=1500,
   desc="sanity of the harness machinery: every directly built pre-state satisfies invariants (a),(b) under the checker used by all C13 harnesses",
   encodes=["BlockingRegistry::has_blocked_clients"], bounds=B2, stubs=[])
 # 3-client pop harnesses (c13_pop_rest_n3_f1/f2, c13_pop_multikey_n3_kf) exist in the overlay but were not run to completion: not registered
+
+# Engine M: a successful push looks for blocked clients (server-level half of "served promptly")
+for _cmd in ("LPUSH", "RPUSH"):
+    M("c13_push_checks_waiters_" + _cmd.lower(), ["C13"], "reach_allow", tier="quick",
+      desc="Server::process_normal_command, command %s: on an execution on which the handler answered Integer(7) for a 3-part request with a bulk-string key, BlockingManager::has_blocked_clients IS consulted (every successful push - whatever the resulting length - must look for waiters, otherwise a blocked client is stranded while its key holds elements)" % _cmd,
+      assumptions=["RespFrame discriminants: Integer 2, BulkString 3; Result Ok 0; Option Some 1 (declaration order)"],
+      fn=r"::process_normal_command$", assume_debug={"command_name": _cmd},
+      assume_disc=[(r"^disc:\(\*_\d+\) : &std::result::Result<protocol::resp::RespFrame", 0), (r"as Ok\)\.0: protocol::resp::RespFrame\) :", 2), (r"^disc:\(\*_\d+\) : &protocol::resp::RespFrame$", 3), (r"as BulkString\)\.0: std::option::Option", 1)],
+      assume_place=[(r"as Integer\)\.0: i64", 7), (r"^len:_2$", 3)],
+      assume_text="reply Integer(7), 3 parts, bulk key", allow=[r"."], must_reach=[r"BlockingManager::has_blocked_clients$"], must_reach_violation=True)
